@@ -6,6 +6,9 @@ EXTENDS Rewrite, Json, IOUtils, Sequences
 
 CONSTANTS NVar, Mode, Seed
 
+(* Mode = "times": (secs, ticks) pairs {"s":[bytes],"t":[bytes]}, one per line of the file EDGES *)
+Edges == ndJsonDeserialize(IOEnv.EDGES)
+
 In == ndJsonDeserialize(IOEnv.IN)
 
 RECURSIVE Compose(_, _, _)
@@ -18,6 +21,8 @@ VariantsOf(i) ==
             [src |-> i, v |-> v,
              bytes |-> Ser(IF Mode = "rewrite" THEN Compose(P.n, Seed * 101 + i * 1009 + v, 1 + (v % 3))
                            ELSE IF Mode = "lengths" THEN MutLen(P.n, v - 1)
+                           ELSE IF Mode = "lengths2" THEN MutLen2(P.n, v - 1)
+                           ELSE IF Mode = "times" THEN MutTime(P.n, v - 1, Edges)
                            ELSE IF Mode = "names" THEN MutNames(P.n, Seed * 101 + i * 1009 + v * 7)
                            ELSE Mut(P.n, Seed * 101 + i * 1009 + v * 7))]]
 
